@@ -291,9 +291,18 @@ class World:
         elif k == "newmesh":
             self.meshes.append(quad_mesh(op["nx"], op["ny"], op.get("lx", 1.0) * self.scale, op.get("ly", 1.0) * self.scale, op.get("elem", "QUAD4")))
         elif k == "param":
+            self.state.pop("C_override", None)   # the lazy update of the law recomputes C from its parameters
             self.state.pop("arr_" + op["name"], None)
             self.state["params"][op["name"]] = op["value"]
             set_param(self.typ, self.model, op.get("sub", False), op["name"], op["value"])
+        elif k == "assignC":
+            # direct assignment of the stiffness matrix of an elastic law through its public `C` setter
+            law = self.model.material if self.typ == "PhaseField" else self.model
+            C = law.C
+            C[0, 1] *= op["factor"]
+            C[1, 0] *= op["factor"]
+            law.C = C
+            self.state["C_override"] = C.copy()
         elif k == "param_arr":
             # array-valued parameter (one value per element of mesh 0).  same=False: a NEW array object is assigned;
             # same=True: the array object assigned before is edited IN PLACE by the user and assigned again
@@ -385,6 +394,10 @@ class World:
         state = {"params": {k_: (v_.copy() if isinstance(v_, np.ndarray) else v_) for k_, v_ in self.state["params"].items()},
                  "split": self.state["split"]}
         model = make_model(self.typ, state)
+        if self.state.get("C_override") is not None:
+            law_ = model.material if self.typ == "PhaseField" else model
+            _ = law_.C   # the new law first performs its lazy update from E, v; the assigned matrix then replaces it
+            law_.C = self.state["C_override"].copy()
         if self.typ == "Beam":
             # Beam builds its own beam-element mesh from the coordinates of the mesh it is given
             P = beam_parts()
